@@ -5,14 +5,14 @@
 (* VALUES are tagged records [k, v] (the tag k is compared first, so       *)
 (* payloads of different kinds never meet):                                *)
 (*   none 0 | bool b | int n | float <<num, den>> (reduced, den > 0)       *)
-(*   str "text" | enum <<class, member>>                                   *)
+(*   str "text" | enum <<class, member>> | path "name" (a Path object)     *)
 (*   list <<...>> | tuple <<...>> | set {...}                              *)
 (*   dict << <<key, value>>, ... >>  in insertion order, keys distinct     *)
 (*   bag [element -> count]  a set WRITTEN as a list by dump (any order)   *)
 (*   exc 0   an exception OBJECT that ended up as a value (see excLeak)    *)
 (*   fail 0  "the loader raised" (never a value of a configuration)        *)
 (* TYPE TERMS use the same record shape:                                   *)
-(*   str int float bool none any <<>>          leaf types                  *)
+(*   str int float bool none any path <<>>     leaf types                  *)
 (*   literal <<values>>   enum <<[k |-> "cls", v |-> name]>>               *)
 (*   list <<t>> (<<>> = bare list)   set <<t>>   tupleE <<t>> (Tuple[t,...])*)
 (*   tuple <<t1..tn>>   dict <<kt, vt>> (<<>> = bare dict)   union <<t1..>> *)
@@ -45,6 +45,10 @@
 (*               tuple during validation shows in the result, e.g.         *)
 (*               Tuple[Union[List[Tuple[int]],List[Set[int]]],...] given   *)
 (*               [[[1,1]]] returns ([(1,)],) instead of ([{1}],).          *)
+(*   rawDefault  parse_args fills in a default as it is: a valid but       *)
+(*               non-canonical default (1 for float, a tuple for List)     *)
+(*               is neither normalised nor a fixed point of dump o parse;  *)
+(*               parse_object normalises it.                               *)
 (*   setListing  a set with two or more members is turned into a List or   *)
 (*               Tuple: the order is whatever Python lists the set in, so  *)
 (*               Union[Tuple[int,str],Set[str]] may read its own result    *)
@@ -105,6 +109,8 @@ TupleV(s)     == [k |-> "tuple", v |-> s]
 SetV(S)       == [k |-> "set", v |-> S]
 DictV(ps)     == [k |-> "dict", v |-> ps]
 BagV(f)       == [k |-> "bag", v |-> f]
+PathV(name)   == [k |-> "path", v |-> name]        \* a jsonargparse Path object (by the name it was given)
+FileV(name, c) == [k |-> "file", v |-> <<name, c>>] \* INPUT only: the name of an existing config file whose content loads as c
 ExcV          == [k |-> "exc", v |-> 0]
 FailV         == [k |-> "fail", v |-> 0]
 ASSUME IntV(1) # StrV("a") /\ FieldOrder.k = "tag"        \* dies at start-up if the field order is not tag-first
@@ -116,6 +122,7 @@ FloatT        == LeafT("float")
 BoolT         == LeafT("bool")
 NoneT         == LeafT("none")
 AnyT          == LeafT("any")
+PathT         == LeafT("path")                     \* typing.Path_fr, a registered type
 LitT(ms)      == [k |-> "literal", v |-> ms]
 EnumT(c)      == [k |-> "enum", v |-> <<[k |-> "cls", v |-> c]>>]
 ListT(t)      == [k |-> "list", v |-> <<t>>]
@@ -209,6 +216,9 @@ YamlTbl ==
   @@ ("[1" :> FailV) @@ ("{a" :> FailV) @@ ("\"a" :> FailV) @@ ("a: b: c" :> FailV)
 Yaml(s)  == IF s \in DOMAIN YamlTbl THEN YamlTbl[s] ELSE StrV(s)       \* yaml_load:85-96
 Blank(s) == s \in {"", " "}
+\* the files that exist (and are readable) in the working directory of a run; their names are plain words
+ExistingFiles == {"file.txt"}
+MetaKey == StrV("__path__")                        \* where a dict that was loaded from a file remembers the file
 
 \* _util.parse_value_or_config:127-152 + load_value:184-205 (simple_types=False): only null / list / dict
 \* replace the text, a scalar keeps its ORIGINAL text; "-" is passed through; a loader error keeps the text
@@ -272,6 +282,7 @@ LitRead(t, x) == IF IsStr(x) /\ x \notin LitMembers(t) THEN LeafLoad(x.v) ELSE x
 Acc(t, x) ==
   CASE t.k = "any"       -> TRUE
     [] t.k \in LeafKinds -> LeafAcc(t.k, x)
+    [] t.k = "path"      -> x.k = "path" \/ (IsStr(x) /\ x.v \in ExistingFiles)
     [] t.k = "literal"   -> LitRead(t, x) \in LitMembers(t) /\ (LitRead(t, x) # x => LitRead(t, x).k # "str")
     [] t.k = "enum"      -> (x.k = "enum" /\ x.v[1] = EnumCls(t)) \/ (x.k = "str" /\ x.v \in EnumMembers(EnumCls(t)))
     [] t.k = "union"     -> \E i \in 1..Len(t.v) : Acc(t.v[i], x)
@@ -287,6 +298,7 @@ Res(t, x) ==
   IF ~Acc(t, x) THEN {}
   ELSE CASE t.k = "any"       -> IF IsStr(x) THEN {LoadSimple(x.v)} ELSE {x}          \* a string is read as what it spells
          [] t.k \in LeafKinds -> LeafRes(t.k, x)
+         [] t.k = "path"      -> IF IsStr(x) THEN {PathV(x.v)} ELSE {x}
          [] t.k = "literal"   -> {LitRead(t, x)}
          [] t.k = "enum"      -> IF x.k = "enum" THEN {x} ELSE {EnumV(EnumCls(t), x.v)}
          [] t.k = "union"     -> UNION {Res(t.v[i], x) : i \in 1..Len(t.v)}
@@ -302,6 +314,7 @@ RECURSIVE Conforms(_, _)
 Conforms(t, x) ==
   CASE t.k = "any"       -> ~IsStr(x) \/ LoadSimple(x.v) = x                 \* a string that spells something else is not normalised
     [] t.k \in LeafKinds -> x.k = t.k
+    [] t.k = "path"      -> x.k = "path"
     [] t.k = "literal"   -> x \in LitMembers(t)
     [] t.k = "enum"      -> x.k = "enum" /\ x.v[1] = EnumCls(t) /\ x.v[2] \in EnumMembers(EnumCls(t))
     [] t.k = "union"     -> \E i \in 1..Len(t.v) : Conforms(t.v[i], x)
@@ -390,6 +403,11 @@ AlgAdapt(t, val, orig, top, ser) ==
              v2 == IF t.k = "float" /\ v1.k = "int" THEN FloatV(v1.v, 1) ELSE v1         \* isinstance(val, int) and not bool
          IN IF ~IsInstance(t.k, v2) \/ (t.k \in {"int", "float"} /\ v2.k = "bool") THEN Er({}, val)
             ELSE Ok(v2, IF ser /\ IsStr(val) /\ t.k # "str" THEN {"serLenient"} ELSE {}, val)
+    [] t.k = "path" ->                                                                   \* :800-805 registered type Path_fr
+         IF ser THEN Ok(IF val.k = "path" THEN StrV(val.v) ELSE val, {}, val)            \* serializer = str
+         ELSE IF val.k = "path" THEN Ok(val, {}, val)                                    \* is_value_of_type: kept as it is
+         ELSE IF IsStr(val) /\ val.v \in ExistingFiles THEN Ok(PathV(val.v), {}, val)    \* Path(val, mode="fr")
+         ELSE Er({}, val)
     [] t.k = "enum" ->                                                                   \* :808-818 (by member NAME)
          IF ser THEN (IF val.k = "enum" /\ val.v[1] = EnumCls(t) THEN Ok(StrV(val.v[2]), {}, val)
                       ELSE Ok(val, {}, val))          \* :809-811  anything else is returned as it is -- never raises
@@ -466,17 +484,26 @@ AlgUnionLoop(ts, i, val, orig, top, ser, st) ==
 
 \* ActionTypeHint._is_valid_string:613-617
 ValidString(t, x) == IsStr(x) /\ (t.k = "str" \/ (t.k = "union" /\ StrT \in Range(t.v)))
-\* ActionTypeHint._check_type:554-611 for one value (enable_path=False).  dflt: the action's default
-\* (NoneV if none): adapt_typehints:745-746 returns a scalar equal to the default unchecked, and only the
-\* retry with the original string passes default=
+\* ActionTypeHint._check_type:554-611 for one value.  dflt: the action's default (NoneV if none):
+\* adapt_typehints:745-746 returns a scalar equal to the default unchecked, and only the retry with the original
+\* STRING passes default=.  A FileV input (enable_path=True, _util.parse_value_or_config:136-149) is replaced by
+\* what the file loads as; a dict remembers the file under "__path__", which is taken off before adapting (:566)
+\* and put back afterwards (:599-602) -- also when a result that carries it is parsed again.
+HasMeta(x) == x.k = "dict" /\ \E n \in 1..Len(x.v) : x.v[n][1] = MetaKey
+MetaOf(x) == x.v[CHOOSE n \in 1..Len(x.v) : x.v[n][1] = MetaKey][2]
+NoMeta(x) == IF HasMeta(x) THEN DictV(SelectSeq(x.v, LAMBDA p : p[1] # MetaKey)) ELSE x
 AlgCheckType(t, x, dflt) ==
-  LET loaded == IF IsStr(x) THEN LoadTop(x.v) ELSE x                                     \* parse_value_or_config :563
-      r1 == AlgAdapt(t, loaded, x, TRUE, FALSE)                                               \* :582
-  IN IF r1.ok THEN r1
-     ELSE IF IsStr(x)                                                                    \* :588-591 retry with orig_val
-          THEN LET r2 == IF dflt # NoneV /\ PyEq(x, dflt) THEN Ok(x, {}, x) ELSE AlgAdapt(t, x, x, TRUE, FALSE)
+  LET orig   == IF x.k = "file" THEN StrV(x.v[1]) ELSE x                                 \* orig_val
+      loaded0 == IF x.k = "file" THEN (IF x.v[2].k = "dict" THEN DictV(Append(x.v[2].v, <<MetaKey, PathV(x.v[1])>>)) ELSE x.v[2])
+                 ELSE IF IsStr(x) THEN LoadTop(x.v) ELSE x                               \* parse_value_or_config :563
+      loaded == NoMeta(loaded0)                                                          \* path_meta = val.pop("__path__") :566
+      back(r) == IF r.ok /\ HasMeta(loaded0) /\ r.v.k = "dict" THEN Ok(DictV(Append(r.v.v, <<MetaKey, MetaOf(loaded0)>>)), r.dev, r.m) ELSE r
+      r1 == AlgAdapt(t, loaded, orig, TRUE, FALSE)                                       \* :582
+  IN IF r1.ok THEN back(r1)
+     ELSE IF IsStr(orig)                                                                 \* :588-591 retry with orig_val
+          THEN LET r2 == IF dflt # NoneV /\ PyEq(orig, dflt) THEN Ok(orig, {}, orig) ELSE AlgAdapt(t, orig, orig, TRUE, FALSE)
                IN IF r2.ok THEN r2
-                  ELSE IF ValidString(t, loaded) THEN Ok(loaded, {}, x) ELSE Er(r1.dev, x)   \* :604-606
+                  ELSE IF ValidString(t, loaded) THEN Ok(loaded, {}, orig) ELSE Er(r1.dev, orig)   \* :604-606
           ELSE Er(r1.dev, r1.m)
 
 \* validate works on cfg.clone(): _namespace.recreate_branches copies Namespaces, dicts and lists but SHARES tuples
@@ -511,6 +538,22 @@ AlgParse(t, x, dflt) ==
                  IF r3.ok THEN Ok(Protect(r2.v, r3.m), r1.dev \cup r2.dev \cup r3.dev \cup (IF Protect(r2.v, r3.m) # r2.v THEN {"validateLeak"} ELSE {}), r1.m)
                  ELSE Er(r1.dev \cup r2.dev \cup r3.dev, r1.m)
 
+\* The key is NOT given and the argument has the default d.
+\*   parse_object: _core.py:504  cfg = self._apply_actions(cfg) runs the defaults through _check_type -- the same passes
+\*                 as for an object that is given;  a class-typed option gets its init_args from a nested parse_object.
+\*   parse_args:   the defaults are taken as they are (get_defaults); only add_sub_defaults re-applies str values and
+\*                 validate checks them.  A valid but non-canonical default (1 for float, a tuple for List) therefore
+\*                 stays as it is: deviation rawDefault.
+AlgParseAbsent(t, d, normalises) ==
+  IF d = NoneV THEN Ok(NoneV, {}, d)
+  ELSE IF normalises THEN AlgParse(t, d, d)
+  ELSE LET r2 == IF IsStr(d) THEN AlgCheckType(t, d, d) ELSE Ok(d, {}, d) IN
+       IF ~r2.ok THEN r2
+       ELSE IF r2.v = NoneV THEN Ok(NoneV, r2.dev, d)
+       ELSE LET r3 == AlgCheckType(t, r2.v, d) IN
+            IF r3.ok THEN Ok(Protect(r2.v, r3.m), r2.dev \cup r3.dev \cup (IF r3.v # r2.v THEN {"rawDefault"} ELSE {}), d)
+            ELSE Er(r2.dev \cup r3.dev, d)
+
 \* adapt_typehints(..., serialize=True) as called by ActionTypeHint.serialize:497-519 (no orig_val): the config
 \* representation that dump writes.
 \* PlainFloatTexts: strings of the vocabulary that yaml.safe_dump writes WITHOUT quotes although the loader of
@@ -542,7 +585,12 @@ TreeDevs(y) == (IF \E l \in Leaves(y) : IsStr(l) /\ l.v \in PlainFloatTexts THEN
           \cup (IF \E l \in Leaves(y) : l.k = "set" THEN {"leftSet"} ELSE {})                      \* json cannot write it
           \cup (IF JsonKeyClash(y) THEN {"jsonKeyCollision"} ELSE {})
           \cup (IF HasTuple(y) THEN {"leftTuple"} ELSE {})                                         \* written as a list, read back as a list
-AlgDump(t, val) == LET s == AlgSer(t, val) IN IF s.ok THEN Ok(s.v, s.dev \cup TreeDevs(s.v), val) ELSE s
+\* dump works on strip_meta(cfg) (_namespace.py:60-71): no "__path__" at any level that is reached through dicts and lists
+RECURSIVE StripMeta(_)
+StripMeta(y) == CASE y.k = "list" -> ListV([n \in 1..Len(y.v) |-> StripMeta(y.v[n])])
+                  [] y.k = "dict" -> LET z == NoMeta(y) IN DictV([n \in 1..Len(z.v) |-> <<z.v[n][1], StripMeta(z.v[n][2])>>])
+                  [] OTHER -> y
+AlgDump(t, val) == LET s == AlgSer(t, StripMeta(val)) IN IF s.ok THEN Ok(s.v, s.dev \cup TreeDevs(s.v), val) ELSE s
 \* the tree as a loader returns it: every set (and tuple) that was written is a list again (a set in SOME order)
 RECURSIVE Unbag(_)
 Unbag(y) == CASE y.k = "bag" -> ListV([n \in 1..Len(AsSeq(y)) |-> Unbag(AsSeq(y)[n])])
@@ -562,13 +610,14 @@ RefLaws(t, x) ==
 RefPermInvariant(t, x) == \A p \in AllPerms(t) : Accepts(p, x) = Accepts(t, x) /\ TopResults(p, x) = TopResults(t, x)
 
 \* C02 for the algorithm: outside the named deviations it accepts exactly what Ref accepts and returns one of
-\* Ref's normal forms.  (a is AlgParse(t, x, NoneV); passed in so that a check evaluates it once)
+\* Ref's normal forms -- whatever the default d of the argument is.
+\* (a is AlgParse(t, x, d); passed in so that a check evaluates it once)
 Devs(a) == a.dev \ {"firstMatch"}            \* firstMatch marks a choice that Ref allows, it is not a deviation from Ref
 AlgRefinesRefA(t, x, a) ==
   Devs(a) = {} => /\ a.ok = Accepts(t, x)
                   /\ a.ok => (a.v \in TopResults(t, x) /\ ConformsTop(t, a.v))
-AlgPermInvariantA(t, x, a) ==
-  \A p \in AllPerms(t) : LET b == AlgParse(p, x, NoneV) IN (Devs(a) = {} /\ Devs(b) = {}) => a.ok = b.ok
+AlgPermInvariantA(t, x, d, a) ==
+  \A p \in AllPerms(t) : LET b == AlgParse(p, x, d) IN (Devs(a) = {} /\ Devs(b) = {}) => a.ok = b.ok
 \* the deviations stay inside their description
 DevsAsDescribedA(t, x, a) ==
   /\ "excLeak" \in a.dev => ~a.ok                                                         \* a leaked exception is always caught by validation
@@ -576,16 +625,18 @@ DevsAsDescribedA(t, x, a) ==
 
 \* C10: a result is a fixed point of the parse, and its config representation is a fixed point of dump o parse
 \* (a re-parse that runs into one of the named deviations is that deviation's business)
-IdempotentA(t, x, a) == a.ok => LET b == AlgParse(t, a.v, NoneV) IN b.dev = {} => (b.ok /\ b.v = a.v)
-DumpStableA(t, x, a) ==
+IdempotentA(t, d, a) == a.ok => LET b == AlgParse(t, a.v, d) IN b.dev = {} => (b.ok /\ b.v = a.v)
+DumpStableA(t, d, a) ==
   (a.ok /\ a.v # NoneV) =>
        LET s == AlgDump(t, a.v)
-       IN s.ok /\ (s.dev = {} => LET r == AlgParse(t, Unbag(s.v), NoneV)
-                                 IN r.dev = {} => (r.ok /\ (r.v # NoneV => AlgSer(t, r.v).v = s.v)))
+       IN s.ok /\ (s.dev = {} => LET r == AlgParse(t, Unbag(s.v), d)
+                                 IN r.dev = {} => (r.ok /\ (r.v # NoneV => AlgDump(t, r.v).v = s.v)))
+\* ... and a default that is filled in is normalised like a value that is given (outside rawDefault)
+AbsentLawsA(t, d, a) == (a.dev = {} /\ a.ok) => (ConformsTop(t, a.v) /\ a.v \in TopResults(t, d))
 
 AlgRefinesRef(t, x)    == AlgRefinesRefA(t, x, AlgParse(t, x, NoneV))
-AlgPermInvariant(t, x) == AlgPermInvariantA(t, x, AlgParse(t, x, NoneV))
+AlgPermInvariant(t, x) == AlgPermInvariantA(t, x, NoneV, AlgParse(t, x, NoneV))
 DevsAsDescribed(t, x)  == DevsAsDescribedA(t, x, AlgParse(t, x, NoneV))
-Idempotent(t, x)       == IdempotentA(t, x, AlgParse(t, x, NoneV))
-DumpStable(t, x)       == DumpStableA(t, x, AlgParse(t, x, NoneV))
+Idempotent(t, x)       == IdempotentA(t, NoneV, AlgParse(t, x, NoneV))
+DumpStable(t, x)       == DumpStableA(t, NoneV, AlgParse(t, x, NoneV))
 =============================================================================
